@@ -92,6 +92,10 @@ type conn struct {
 	closePending bool
 }
 
+// SimSock returns the kernel endpoint behind the connection (harnesses use it to reset a
+// connection underneath a protocol layer).
+func (c *conn) SimSock() *kernel.Sock { return c.s }
+
 func (c *conn) enter() { c.inflight++ }
 
 func (c *conn) leave() {
@@ -145,7 +149,7 @@ func (c *conn) Read(b []byte) (int, error) {
 	c.enter()
 	defer c.leave()
 	for {
-		if c.closed {
+		if c.closed || !simrt.Active() {
 			return 0, opErr("read", std.ErrClosed)
 		}
 		simrt.Yield()
@@ -178,7 +182,8 @@ func (c *conn) Write(b []byte) (int, error) {
 	defer c.leave()
 	total := 0
 	for len(b) > 0 {
-		if c.closed {
+		if c.closed || !simrt.Active() {
+			// (a run that is being torn down unwinds its goroutines: nothing blocks any more)
 			return total, opErr("write", std.ErrClosed)
 		}
 		simrt.Yield()
